@@ -282,6 +282,11 @@ class Ctx:
                 continue
             confirmed += 1
             rec["confirmed"] = ok
+            if confirmed > 30:
+                if confirmed == 31:
+                    print("... %d further new violation keys; replay files "
+                          "written, lines suppressed" % (len(new) - 30))
+                continue
             print("VIOLATION property=%s replay=%s key=%s cases=%d :: %s" % (
                 self.prop, path, key, self.viol_count[key],
                 short(rec["msg"], 300)))
